@@ -125,6 +125,10 @@ type Machine struct {
 	timerOf     map[*Value]*simTimer
 	gwg         sync.WaitGroup
 	pendingEnd  interface{}
+	opaqueAlloc bool
+	uf          map[string][]ufApp
+	crypto      *cryptoState
+	divMemo     map[[2]*Term][2]*Term
 }
 
 type MachineStats struct {
@@ -631,6 +635,7 @@ func (m *Machine) require(ok *Term, kind, msg string) {
 	}
 	switch m.solver.Check(m.pc, bad) {
 	case Sat:
+		m.shrinkModel(bad)
 		m.reportModel(kind, msg, false)
 		// is the good side feasible at all?
 		switch m.solver.Check(m.pc, ok) {
@@ -826,6 +831,7 @@ func (m *Machine) concretize(t *Term, what string) uint64 {
 		eq := m.ctx.Eq(t, m.ctx.BV(ch.V, int(t.W)))
 		if ch.I == 0 {
 			m.pc = append(m.pc, eq)
+			m.learnEq(t, ch.V)
 			return ch.V
 		}
 		m.pc = append(m.pc, m.ctx.Not(eq))
@@ -853,4 +859,34 @@ func (m *Machine) forkSite(kind string) {
 		}
 	}
 	m.Stats.ForkSites[kind+" @ "+w]++
+}
+
+// shrinkModel re-asks the (already sat) query with the wide nd integers bounded, so
+// that counterexamples replay with small buffers; the last sat model stays current.
+func (m *Machine) shrinkModel(bad *Term) {
+	c := m.ctx
+	var wide []*Term
+	for _, r := range m.ndlog {
+		if r.Kind == "int" || r.Kind == "u32" || r.Kind == "u64" {
+			for _, t := range r.Terms {
+				t = m.rewrite(t)
+				if !t.IsConst() && t.S == SBV && t.W >= 32 {
+					wide = append(wide, t)
+				}
+			}
+		}
+	}
+	if len(wide) == 0 {
+		return
+	}
+	for _, lim := range []uint64{1 << 16, 1 << 24} {
+		small := c.True
+		for _, t := range wide {
+			small = c.And(small, c.Cmp(OULt, t, c.BV(lim, int(t.W))))
+		}
+		if m.solver.Check(m.pc, bad, small) == Sat {
+			return
+		}
+	}
+	m.solver.Check(m.pc, bad)
 }
